@@ -86,6 +86,13 @@ def run_unit(ctx, unit):
         ("random-chunks", core.Case(args, data, rsched=[r.randint(1, 50) for _ in range(7)])),
         ("interrupted", core.Case(args, data, rintr=sorted(set(r.randrange(2 * n + 2) for _ in range(8))), rsched=[r.randint(1, 9)])),
         ("file", core.Case(args + ["@D@/whole.json"], b"", files=[("whole.json", data)])),
+        # the input context belongs to the value, also for the pieces of a split (here: the value itself as a one-element list)
+        # and inside the item scope of a functional or a pipe
+        ("split-self", core.Case(["--split-by", "(push [] .)"] + args, data)),
+        ("nested-scope", core.Case(args + ["--select", "(first (map [1] &index))=mi", "--select", "(| 1 &index-in-file)=pf",
+                                           "--select", "(first (map [1] (| . &started-at-char-number)))=msc"], data)),
+        # the same bytes as the only file of a directory argument, and as a file of a directory next to another directory
+        ("dir", core.Case(args + ["@D@/d1"], b"", files=[("d1/inner/whole.json", data)])),
     ]
     obs = ctx.drv.run_many([base_case] + [c for _, c in variants])
     base = obs[0]
@@ -119,6 +126,31 @@ def run_unit(ctx, unit):
                 return
             if any(x.get("n") != want_name for x in rf) or any("n" in x for x in rows):
                 st.violation("file-name", "&file-name is not the file path (or is present for stdin)", unit, {"rows": rf[:3]})
+                return
+        elif name == "nested-scope":
+            try:
+                rn = parse_rows(o.stdout)
+            except jm.JsonError as e:
+                st.violation("unreadable-nested", str(e), unit, None)
+                return
+            for x in rn:
+                if x.get("mi", "<absent>") != x.get("i", "<absent>") or x.get("pf", "<absent>") != x.get("f", "<absent>") or \
+                        x.get("msc", "<absent>") != x.get("sc", "<absent>"):
+                    st.violation("input-context-in-nested-scope", "&index / &index-in-file / position differ inside map or pipe from the top level",
+                                 unit, {"row": x})
+                    return
+            if [dict((k, v) for k, v in x.items() if k not in ("mi", "pf", "msc")) for x in rn] != rows:
+                st.violation("delivery:nested-scope", "extra selections changed the other columns", unit, None)
+                return
+        elif name == "dir":
+            try:
+                rd = parse_rows(o.stdout)
+            except jm.JsonError as e:
+                st.violation("unreadable-dir", str(e), unit, None)
+                return
+            if [dict(x, n=None) for x in rd] != [dict(x, n=None) for x in rows] or any(x.get("n") != ctx.scratch + "/d1/inner/whole.json" for x in rd):
+                st.violation("stdin-vs-directory", "the same bytes as the only file under a directory argument give different rows", unit,
+                             {"stdin_rows": rows[:4], "dir_rows": rd[:4]})
                 return
         elif o.stdout != base.stdout:
             st.violation("delivery:" + name, "stdout depends on how the input bytes are delivered (%s)" % name, unit,
@@ -221,6 +253,33 @@ def run_unit(ctx, unit):
             if x.get("f") != k or x.get("n") != ctx.scratch + "/" + files[j][0]:
                 st.violation("per-file-context", "&index-in-file / &file-name wrong in file %d" % j, unit, {"row": x})
                 return
+    # the same pieces as the files of ONE directory argument: the order of the files is the file system's, but &index must
+    # count 0,1,2.. through them, &index-in-file restarts per file and each file's values stay together
+    if len(files) >= 2 and prng.random() < 0.5:
+        dfiles = [("dd/" + nme.replace("/", "_"), p) for nme, p in files]
+        od = ctx.drv.run(core.Case(args + ["@D@/dd"], b"", files=dfiles))
+        if od.result != "ok":
+            st.violation("directory-result:" + od.result, "directory run failed: %s %s" % (od.errtext, od.panicinfo), unit, {"obs": od.brief()})
+            return
+        try:
+            drows = parse_rows(od.stdout)
+        except jm.JsonError as e:
+            st.violation("unreadable-directory", str(e), unit, None)
+            return
+        seen_files = []
+        for k, x in enumerate(drows):
+            if x.get("i") != k:
+                st.violation("directory-index", "value number %d of a directory run has &index %r" % (k, x.get("i")), unit, {"rows": drows[:8]})
+                return
+            if not seen_files or seen_files[-1] != x.get("n"):
+                if x.get("n") in seen_files or x.get("f") != 0:
+                    st.violation("directory-per-file", "files of a directory are interleaved or &index-in-file does not restart", unit, {"rows": drows[:8]})
+                    return
+                seen_files.append(x.get("n"))
+        if len(drows) != sum(len(rs) for rs in srows[:len(files)] if True) and order == list(range(len(files))):
+            st.violation("directory-row-count", "a directory of the pieces gives %d rows, the pieces alone give %d" % (len(drows), sum(len(rs) for rs in srows)), unit, None)
+            return
+        st.count("directory_runs")
     st.count("file_partitions", 1)
     st.see("nontrivial", (hash(data) & 0xFFFFFFF, "files%d" % len(order)))
     # noisy stream: only delivery independence and sanity of positions
